@@ -40,6 +40,8 @@ type c01scn struct {
 	Seed    int64       `json:"seed"`
 	Mode    string      `json:"mode"`
 	NM      int         `json:"nm"`
+	XF      int         `json:"xf"` // additional formats on the first media
+	Arb     bool        `json:"arb"` // arbitrary sequence numbers (all readers on reliable transports)
 	TLS     bool        `json:"tls"`
 	Queue   int         `json:"queue"`
 	Rounds  int         `json:"rounds"`
@@ -107,11 +109,15 @@ func c01gen(rng *rand.Rand, i int) *c01scn {
 		sc.Mode = "sync"
 	}
 	sc.TLS = rng.Intn(4) == 0
+	if rng.Intn(3) == 0 {
+		sc.XF = 1
+	}
 	sc.Queue = []int{8, 16, 64, 256}[rng.Intn(4)]
 	nr := 1 + rng.Intn(3)
 	if sc.Mode == "record" {
 		nr = 1
 	}
+	sc.Arb = rng.Intn(3) == 0
 	for r := 0; r < nr; r++ {
 		rd := c01reader{Proto: "tcp"}
 		switch rng.Intn(6) {
@@ -128,8 +134,27 @@ func c01gen(rng *rand.Rand, i int) *c01scn {
 			rd.Reord = 10 + rng.Intn(40)
 		}
 		sc.Readers = append(sc.Readers, rd)
+		if rd.Proto == "udp" {
+			sc.Arb = false
+		}
 	}
 	return sc
+}
+
+// a stream = one (media, format) pair of the description: index k is 1-based in media / format order
+type c01stream struct {
+	m  int // 0-based media index
+	pt uint8
+}
+
+func c01streams(d *description.Session) []c01stream {
+	out := []c01stream{{}}
+	for m, medi := range d.Medias {
+		for _, f := range medi.Formats {
+			out = append(out, c01stream{m, f.PayloadType()})
+		}
+	}
+	return out
 }
 
 type c01rstate struct {
@@ -152,7 +177,8 @@ func c01run(sc *c01scn, s *vt.Sink) error {
 	for i, r := range sc.Readers {
 		rel[i] = sc.Mode == "sync" && r.Proto == "tcp"
 	}
-	tr := s.Begin("c01/"+sc.Mode, string(desc), "nr", len(sc.Readers), "nm", sc.NM, "rel", rel)
+	nk := sc.NM + sc.XF // streams = (media, format) pairs
+	tr := s.Begin("c01/"+sc.Mode, string(desc), "nr", len(sc.Readers), "nm", nk, "rel", rel)
 	defer tr.End()
 	defer func() {
 		if p := recover(); p != nil {
@@ -160,7 +186,7 @@ func c01run(sc *c01scn, s *vt.Sink) error {
 		}
 	}()
 	rng := rand.New(rand.NewSource(sc.Seed))
-	cfg := bed.ServerCfg{UDP: true, Medias: sc.NM, WriteQueueSize: sc.Queue}
+	cfg := bed.ServerCfg{UDP: true, Medias: sc.NM, ExtraFormats: sc.XF, WriteQueueSize: sc.Queue}
 	if sc.TLS {
 		cfg.TLS = bed.SelfSignedTLS()
 	}
@@ -170,14 +196,18 @@ func c01run(sc *c01scn, s *vt.Sink) error {
 	}
 	defer bd.Close()
 
-	spec := &bed.PacketSpec{MaxPL: 1200}
-	for k := 1; k <= sc.NM; k++ {
+	spec := &bed.PacketSpec{MaxPL: 1200, ArbSeq: sc.Arb}
+	for k := 1; k <= nk; k++ {
 		spec.Seq0[k] = uint16(65536 - rng.Intn(60))
 		spec.TS0[k] = uint32(0xFFFFFFFF - uint32(rng.Intn(200000)))
 	}
-	pts := make([]uint8, sc.NM+1)
-	for k := 1; k <= sc.NM; k++ {
-		pts[k] = bd.Desc.Medias[k-1].Formats[0].PayloadType()
+	streams := c01streams(bd.Desc)
+	if len(streams) != nk+1 {
+		return fmt.Errorf("c01: %d streams in the description, expected %d", len(streams)-1, nk)
+	}
+	pts := make([]uint8, nk+1)
+	for k := 1; k <= nk; k++ {
+		pts[k] = streams[k].pt
 	}
 
 	// session -> reader, for write-error attribution: readers connect one at a time
@@ -207,16 +237,17 @@ func c01run(sc *c01scn, s *vt.Sink) error {
 		smu.Lock()
 		connecting = st
 		smu.Unlock()
-		onPkt := func(medi *description.Media, _ format.Format, pkt *rtp.Packet) {
+		onPkt := func(medi *description.Media, forma format.Format, pkt *rtp.Packet) {
 			k, id, ok := bed.Identify(pkt.Payload)
 			mi := st.rd.MediaIndex(medi)
-			if !ok || k < 1 || k > sc.NM {
+			if !ok || k < 1 || k > nk {
 				tr.Emit("dlv", "r", st.idx, "k", mi, "id", 0, "same", false)
 				return
 			}
-			same := mi == k && spec.Same(k, id, pts[k], pkt)
+			// delivered to the media AND the format it was written to
+			same := mi == streams[k].m+1 && forma != nil && forma.PayloadType() == pts[k] && spec.Same(k, id, pts[k], pkt)
 			if !st.ssrcDone[k].Swap(true) {
-				ann := st.rd.AnnouncedSSRC(k - 1)
+				ann := st.rd.AnnouncedSSRC(streams[k].m)
 				tr.Emit("ssrc", "r", st.idx, "k", k, "same", ann == 0 || ann == pkt.SSRC)
 			}
 			tr.Emit("dlv", "r", st.idx, "k", k, "id", id, "same", same)
@@ -244,14 +275,14 @@ func c01run(sc *c01scn, s *vt.Sink) error {
 		}
 	}()
 
-	begun := make([]int, sc.NM+1)
+	begun := make([]int, nk+1)
 	write := func() {
-		k := 1 + rng.Intn(sc.NM)
+		k := 1 + rng.Intn(nk)
 		begun[k]++
 		id := begun[k]
 		pkt := spec.Make(k, id, pts[k])
 		tr.Emit("wbeg", "k", k, "id", id)
-		err := bd.Stream.WritePacketRTP(bd.Desc.Medias[k-1], pkt)
+		err := bd.Stream.WritePacketRTP(bd.Desc.Medias[streams[k].m], pkt)
 		tr.Emit("wend", "k", k, "id", id)
 		if err != nil {
 			for _, r := range readers {
@@ -275,7 +306,7 @@ func c01run(sc *c01scn, s *vt.Sink) error {
 		deadline := time.Now().Add(4 * time.Second)
 		for time.Now().Before(deadline) {
 			done := true
-			for k := 1; k <= sc.NM; k++ {
+			for k := 1; k <= nk; k++ {
 				if r.last[k].Load() < int64(begun[k]) {
 					done = false
 				}
@@ -396,7 +427,8 @@ func c01record(sc *c01scn, s *vt.Sink) error {
 	desc, _ := json.Marshal(sc)
 	rc := sc.Readers[0]
 	reliable := rc.Proto == "tcp"
-	tr := s.Begin("c01/record", string(desc), "nr", 1, "nm", sc.NM, "rel", []bool{reliable, false, false, false})
+	nk := sc.NM + sc.XF
+	tr := s.Begin("c01/record", string(desc), "nr", 1, "nm", nk, "rel", []bool{reliable, false, false, false})
 	defer tr.End()
 	defer func() {
 		if p := recover(); p != nil {
@@ -413,20 +445,21 @@ func c01record(sc *c01scn, s *vt.Sink) error {
 		return err
 	}
 	defer bd.Close()
-	spec := &bed.PacketSpec{MaxPL: 1200}
-	for k := 1; k <= sc.NM; k++ {
+	spec := &bed.PacketSpec{MaxPL: 1200, ArbSeq: sc.Arb}
+	for k := 1; k <= nk; k++ {
 		spec.Seq0[k] = uint16(65536 - rng.Intn(60))
 		spec.TS0[k] = uint32(0xFFFFFFFF - uint32(rng.Intn(200000)))
 	}
-	pdesc := bed.DefaultDesc(sc.NM)
-	pts := make([]uint8, sc.NM+1)
-	for k := 1; k <= sc.NM; k++ {
-		pts[k] = pdesc.Medias[k-1].Formats[0].PayloadType()
+	pdesc := bed.DefaultDescX(sc.NM, sc.XF)
+	streams := c01streams(pdesc)
+	pts := make([]uint8, nk+1)
+	for k := 1; k <= nk; k++ {
+		pts[k] = streams[k].pt
 	}
 	var last [5]atomic.Int64
 	bd.OnRecordHook = func(ctx *gortsplib.ServerHandlerOnRecordCtx) {
 		medias := ctx.Session.AnnouncedDescription().Medias
-		ctx.Session.OnPacketRTPAny(func(medi *description.Media, _ format.Format, pkt *rtp.Packet) {
+		ctx.Session.OnPacketRTPAny(func(medi *description.Media, forma format.Format, pkt *rtp.Packet) {
 			mi := 0
 			for i, m := range medias {
 				if m == medi {
@@ -434,11 +467,12 @@ func c01record(sc *c01scn, s *vt.Sink) error {
 				}
 			}
 			k, id, ok := bed.Identify(pkt.Payload)
-			if !ok || k < 1 || k > sc.NM {
+			if !ok || k < 1 || k > nk {
 				tr.Emit("dlv", "r", 1, "k", mi, "id", 0, "same", false)
 				return
 			}
-			tr.Emit("dlv", "r", 1, "k", k, "id", id, "same", mi == k && spec.Same(k, id, pts[k], pkt))
+			tr.Emit("dlv", "r", 1, "k", k, "id", id, "same",
+				mi == streams[k].m+1 && forma != nil && forma.PayloadType() == pts[k] && spec.Same(k, id, pts[k], pkt))
 			if int64(id) > last[k].Load() {
 				last[k].Store(int64(id))
 			}
@@ -471,15 +505,15 @@ func c01record(sc *c01scn, s *vt.Sink) error {
 	}
 	defer c.Close()
 	tr.Emit("play", "r", 1) // RECORD has completed: the session is streaming
-	begun := make([]int, sc.NM+1)
+	begun := make([]int, nk+1)
 	for round := 0; round < sc.Rounds; round++ {
 		for i := 0; i < sc.Burst; i++ {
-			k := 1 + rng.Intn(sc.NM)
+			k := 1 + rng.Intn(nk)
 			begun[k]++
 			id := begun[k]
 			pkt := spec.Make(k, id, pts[k])
 			tr.Emit("wbeg", "k", k, "id", id)
-			err := c.WritePacketRTP(pdesc.Medias[k-1], pkt)
+			err := c.WritePacketRTP(pdesc.Medias[streams[k].m], pkt)
 			tr.Emit("wend", "k", k, "id", id)
 			if err != nil {
 				tr.Emit("werr", "r", 1)
@@ -489,7 +523,7 @@ func c01record(sc *c01scn, s *vt.Sink) error {
 			deadline := time.Now().Add(4 * time.Second)
 			for time.Now().Before(deadline) {
 				done := true
-				for k := 1; k <= sc.NM; k++ {
+				for k := 1; k <= nk; k++ {
 					if last[k].Load() < int64(begun[k]) {
 						done = false
 					}
